@@ -161,6 +161,8 @@ def build(case, idx, work):
         base1.emit_python_code(os.path.join(work, bname + ".py"))
     f1 = cffi.FFI()
     try:
+        if case.get("pre"):
+            f1.cdef(case["pre"], **kw)        # declarations made before ffi.include()
         if base1 is not None:
             f1.include(base1)
         f1.cdef(case["cdef"], **kw)
